@@ -1,6 +1,9 @@
 package sim
 
-import "fmt"
+import (
+	"fmt"
+	"strings"
+)
 
 // Plan generator of the `wire` scenario.
 
@@ -42,6 +45,18 @@ func wireTokSpec(r *Rand, nCast int, label string, focus string) TokSpec {
 			ts.Inv.Args = append(ts.Inv.Args, KV{"whole", vFloat(f)})
 		} else {
 			ts.Dlg.Meta = append(ts.Dlg.Meta, MetaSpec{Key: "whole", V: ptr(vFloat(f))})
+		}
+	}
+	// a large value: writes and reads beyond the usual buffer sizes
+	if r.Chance(0.1) {
+		big := MetaSpec{Key: "blob", V: ptr(vBytes(r.Bytes(Pick(r, []int{4096, 4097, 9000}))))}
+		if r.Chance(0.5) {
+			big = MetaSpec{Key: "text", V: ptr(vStr(strings.Repeat("abcdefgh", 700)))}
+		}
+		if ts.Kind == "inv" {
+			ts.Inv.Meta = append(ts.Inv.Meta, big)
+		} else {
+			ts.Dlg.Meta = append(ts.Dlg.Meta, big)
 		}
 	}
 	// a Go string that is not valid UTF-8 (DAG-CBOR carries it, DAG-JSON cannot)
@@ -133,6 +148,9 @@ func genWire(r *Rand, g GenCfg) Plan {
 			add(XStep{Op: "sig", Tok: r.Intn(2), Kind: k, At: r.Intn(600), Val: r.Intn(256)})
 		}
 		for t := 0; t < 2; t++ {
+			for _, f := range fields(p.Tokens[t].Kind) {
+				add(XStep{Op: "jsonfield", Tok: t, Field: f, How: Pick(r, []string{"null", "rewrite", "rewrite+null", "rewrite+null"}), Val: r.Intn(200), At: r.Intn(7)})
+			}
 			for _, f := range fields(p.Tokens[t].Kind) {
 				add(XStep{Op: "field", Tok: t, Field: f, How: "set", Val: r.Intn(200)})
 				if r.Chance(0.5) {
